@@ -197,7 +197,8 @@ def register(reg):
         note='runs the module\'s code: arbitrary effects on sys.path/sys.modules, arbitrary exceptions')
     reg.names['warnings'] = MNS('warnings', {'warn': MFn('spec', 'warnings.warn', spec=FnSpec(
         'warnings.warn', params=[('msg', STR), ('cat', ANY), ('stacklevel', INT)],
-        defaults={'cat': None, 'stacklevel': 1}, ret=None, assumed=True, note='assumed not to raise'))})
+        defaults={'cat': None, 'stacklevel': 1}, ret=None, assumed=True, raises=['Exception'],
+        note='raises when warnings are turned into errors (-W error, pytest filterwarnings)'))})
     reg.names['UserWarning'] = MCls('UserWarning')
     reg.names['traceback'] = MNS('traceback', {'format_exc': MFn('spec', 'format_exc', spec=FnSpec(
         'traceback.format_exc', ret=STR, assumed=True))})
